@@ -1,6 +1,6 @@
 """C20 - a configuration file means exactly what it declares (structural clauses)."""
 import cover, guards, lib
-from mir import callee_of, op_place, op_local, pl_local
+from mir import callee_of, op_place, op_local, op_const, pl_local
 
 CFG = "sozu_command_lib::config::"
 RT = "sozu_command_lib::proto::command::request::RequestType"
@@ -109,6 +109,49 @@ def run(F, chk):
             rc.ok(key, "", "%d rejecting site(s) in the builder path" % len(errs[need]), nontrivial=False)
         else:
             rc.violation(key, ic.where(), "no site of the builder path rejects with ConfigError::%s any more" % need)
+    # ---------------- R-C20-g --------------------------------------------------
+    # A frontend inherits (certificate, ...) from *its* listener: wherever the builder searches the listeners with a
+    # predicate that compares the listener's address, the predicate can only say `this one` when the addresses are equal:
+    # on the edge where the address comparison failed the closure returns false.
+    rg = chk.rule("R-C20-g", "T5", "listener lookups by address never match a listener at another address", floor=1)
+    n_g = 0
+    for root in (CFG + "ConfigBuilder::populate_clusters", CFG + "ConfigBuilder::populate_listeners", CFG + "ConfigBuilder::into_config"):
+        if not F.has(root):
+            continue
+        for cp in F.family(root)[1:]:
+            cb = lib.flat(F, F.body(cp))
+            if cb.locals[0] != "bool":
+                continue
+            cmpc = [(bi, t) for bi, t in cb.calls() if (t.get("fn") or "").endswith(("PartialEq::eq", "PartialEq::ne"))
+                    and (t.get("recv") or "").lstrip("&").endswith("SocketAddress")
+                    and any(f == "address" for a in t["args"] for _, f in guards.slice_of_operand(cb, a)["fields"])]
+            if not cmpc:
+                continue
+            rg.fn(cp)
+            def neq(sb, truth, atom):
+                if atom[0] != "call" or atom[2] is not cmpc[0][1]:
+                    return False
+                return truth is (not (atom[1].endswith("eq")))
+            miss_edges = lib.edges_where(cb, neq)
+            n_g += 1
+            key = "%s|false when the address differs" % cp
+            if not miss_edges:
+                rg.violation(key, cb.where(cmpc[0][0]), "the address comparison does not decide the predicate's result")
+                continue
+            bad = []
+            region = cb.reach_from([tg for _, tg in miss_edges])
+            for bi in region:
+                for si, st in enumerate(cb.blocks[bi]["s"]):
+                    if st.get("lhs") == 0 and not (st["rv"]["k"] == "use" and op_const(st["rv"]["a"]) == 0):
+                        bad.append((bi, si))
+                t = cb.blocks[bi]["t"]
+                if t["k"] == "call" and t.get("dest") == 0:
+                    bad.append((bi, None))
+            if bad:
+                rg.violation(key, cb.where(bad[0][0], bad[0][1]), "the lookup predicate can accept a listener whose address differs from the one searched for: a frontend then inherits the settings (certificate, key, chain) of another listener, and a configuration that should be rejected is accepted")
+            else:
+                rg.ok(key, cb.where(cmpc[0][0]), "returns false on the address-mismatch edge")
+    rg.require(n_g >= 1, "no listener lookup predicate comparing addresses found in the builder")
     # ---------------- R-C20-e --------------------------------------------------
     re_ = chk.rule("R-C20-e", "T7", "generate_config_messages covers every collection of Config", floor=8)
     gm = CFG + "Config::generate_config_messages"
